@@ -225,6 +225,8 @@ def run_graph(res, tier, prop, oracle, project=None, classify=None, spec_key=Non
         "commands_dropped_unsupported_by_model": sum(r["dropped"] for r in recs),
         "programs_skipped": sum(1 for r in recs if r["skipped"]),
         "correspondence_disagreements": len(diffs),
+        "traces_validated_against_impl": sum(1 for r in recs if not r["skipped"]) + k10stats.get("mirs_compared", 0),
+        "disagreements_checked": len(diffs) + k10stats.get("disagreements", 0),
         "masked_by_known_findings": masked,
         "entry_point_composition_K10": k10stats,
         "samples": samples or [{"program": r["id"], "events": r.get("events", [])[:8]} for r in recs[:2]],
